@@ -556,86 +556,93 @@ class Compare:
         self.lenient = lenient_scalars_in_instances
         self.leg_mode = leg_mode
         self.sanity_checked = 0
+        self._noid = 0
+        self.noid_seen = set()
         # originals for which `shared before => shared after` is claimed (None: all). For HDF5 these are the
         # objects handed to the saver; e.g. the `compact` leg format writes a fresh hstack, not `leg.charges`.
         self.identity_ids = identity_ids
 
-    def diff(self, path, what):
+    def diff(self, path, what, owner='root'):
         if len(self.diffs) < self.max_diffs:
-            self.diffs.append((path, what))
+            self.diffs.append((path, what, owner))
 
     def run(self, a, b):
         import sys
         old = sys.getrecursionlimit()
         sys.setrecursionlimit(max(old, 10000))
         try:
-            self.cmp(a, b, '', False)
+            self.cmp(a, b, '', False, 'root')
         finally:
             sys.setrecursionlimit(old)
         return self.diffs
 
-    def identity(self, a, b, path, both_ways):
+    def identity(self, a, b, path, both_ways, owner='root'):
         """returns True if this pair was seen before (stop descending)"""
         ia, ib = id(a), id(b)
         self.keep.append((a, b))
+        if self._noid:  # values recomputed by an accessor: only guard against infinite recursion
+            if (ia, ib) in self.noid_seen:
+                return True
+            self.noid_seen.add((ia, ib))
+            return False
         if ia in self.pairs:
             if self.pairs[ia] != ib and (self.identity_ids is None or ia in self.identity_ids):
-                self.diff(path, 'identity: object shared in the original is not shared in the copy (%s)' % type(a).__name__)
+                self.diff(path, 'identity: object shared in the original is not shared in the copy (%s)' % type(a).__name__, owner=owner)
             return True
         if both_ways and ib in self.rpairs and self.rpairs[ib] != ia:
-            self.diff(path, 'identity: distinct objects of the original are one object in the copy (%s)' % type(a).__name__)
+            self.diff(path, 'identity: distinct objects of the original are one object in the copy (%s)' % type(a).__name__, owner=owner)
             return True
         self.pairs[ia] = ib
         self.rpairs.setdefault(ib, ia)
         return False
 
-    def scalar(self, a, b, path, in_inst):
+    def scalar(self, a, b, path, in_inst, owner='root'):
         if in_inst and self.lenient:
             num = (int, float, complex, bool, np.number, np.bool_)
             if isinstance(a, num) and isinstance(b, num):
                 ok = (a == b) or (a != a and b != b)
                 if not ok:
-                    self.diff(path, 'value %r vs %r' % (a, b))
+                    self.diff(path, 'value %r vs %r' % (a, b), owner=owner)
                 return
         if isinstance(a, (bool, np.bool_)) and isinstance(b, (bool, np.bool_)):
             # REPR_BOOL is shared by bool and np.bool_: an np.bool_ comes back as a Python bool (same value)
             if bool(a) != bool(b):
-                self.diff(path, 'value %r vs %r' % (a, b))
+                self.diff(path, 'value %r vs %r' % (a, b), owner=owner)
             return
         if type(a) is not type(b):
-            self.diff(path, 'type %s vs %s' % (type(a).__name__, type(b).__name__))
+            self.diff(path, 'type %s vs %s' % (type(a).__name__, type(b).__name__), owner=owner)
             return
         if isinstance(a, (float, np.floating, complex, np.complexfloating)):
             if not (a == b or (a != a and b != b)):
-                self.diff(path, 'value %r vs %r' % (a, b))
+                self.diff(path, 'value %r vs %r' % (a, b), owner=owner)
         elif isinstance(a, (types.FunctionType, types.BuiltinFunctionType, type)):
             if a is not b:
-                self.diff(path, 'global object not identical')
+                self.diff(path, 'global object not identical', owner=owner)
         elif isinstance(a, types.MethodType):
             if a.__func__ is not b.__func__:
-                self.diff(path, 'bound method of a different function')
-            self.cmp(a.__self__, b.__self__, path + '.__self__', in_inst)
+                self.diff(path, 'bound method of a different function', owner=owner)
+            self.cmp(a.__self__, b.__self__, path + '.__self__', in_inst, owner)
         elif a != b:
-            self.diff(path, 'value %r vs %r' % (a, b))
+            self.diff(path, 'value %r vs %r' % (a, b), owner=owner)
 
-    def cmp(self, a, b, path, in_inst):
+    def cmp(self, a, b, path, in_inst, owner='root'):
         if len(self.diffs) >= self.max_diffs:
             return
         if isinstance(a, IMMUTABLE_SCALARS) or a is Ellipsis:
-            return self.scalar(a, b, path, in_inst)
+            return self.scalar(a, b, path, in_inst, owner)
         if isinstance(a, np.ndarray):
             if not isinstance(b, np.ndarray):
-                return self.diff(path, 'type ndarray vs %s' % type(b).__name__)
+                return self.diff(path, 'type ndarray vs %s' % type(b).__name__, owner=owner)
             if type(a) is not type(b):
-                return self.diff(path, 'type %s vs %s' % (type(a).__name__, type(b).__name__))
-            if not in_inst and self.identity(a, b, path, True):
+                return self.diff(path, 'type %s vs %s' % (type(a).__name__, type(b).__name__), owner=owner)
+            if not in_inst and self.identity(a, b, path, True, owner):
                 # (numpy buffers held by tenpy instances -- `leg.charges` shared by `leg.conj()` -- are an internal
                 #  copy-on-write optimisation, not a reference the user holds: their identity is not compared)
                 return
             if a.dtype != b.dtype and not (in_inst and a.dtype.kind == b.dtype.kind == 'i'):
-                return self.diff(path, 'dtype %s vs %s' % (a.dtype, b.dtype))
+                return self.diff(path, 'dtype %s vs %s' % (a.dtype, b.dtype), owner=owner)
             if a.shape != b.shape:
-                return self.diff(path, 'shape %s vs %s' % (a.shape, b.shape))
+                return self.diff(path, 'shape %s vs %s' % (a.shape, b.shape), owner=owner)
             if a.dtype == object:
                 for idx in np.ndindex(a.shape):
                     self.cmp(a[idx], b[idx], path + str(list(idx)), in_inst)
@@ -643,89 +650,94 @@ class Compare:
             if isinstance(a, np.ma.MaskedArray):
                 if not (np.array_equal(np.ma.getmaskarray(a), np.ma.getmaskarray(b))
                         and np.array_equal(a.filled(0), b.filled(0))):
-                    self.diff(path, 'masked array differs')
+                    self.diff(path, 'masked array differs', owner=owner)
                 return
             eq = np.array_equal(a, b, equal_nan=a.dtype.kind in 'fc')
             if not eq:
-                self.diff(path, 'array values differ')
+                self.diff(path, 'array values differ', owner=owner)
             return
         if type(a) is not type(b):
-            return self.diff(path, 'type %s vs %s' % (type(a).__name__, type(b).__name__))
+            return self.diff(path, 'type %s vs %s' % (type(a).__name__, type(b).__name__), owner=owner)
         if isinstance(a, tuple):
-            if self.identity(a, b, path, False):
+            if self.identity(a, b, path, False, owner):
                 return
             if len(a) != len(b):
-                return self.diff(path, 'len %d vs %d' % (len(a), len(b)))
+                return self.diff(path, 'len %d vs %d' % (len(a), len(b)), owner=owner)
             for i, (x, y) in enumerate(zip(a, b)):
-                self.cmp(x, y, '%s[%d]' % (path, i), in_inst)
+                self.cmp(x, y, '%s[%d]' % (path, i), in_inst, owner)
             return
         if isinstance(a, (list, collections.deque)):
-            if self.identity(a, b, path, True):
+            if self.identity(a, b, path, True, owner):
                 return
             if len(a) != len(b):
-                return self.diff(path, 'len %d vs %d' % (len(a), len(b)))
+                return self.diff(path, 'len %d vs %d' % (len(a), len(b)), owner=owner)
             for i, (x, y) in enumerate(zip(a, b)):
-                self.cmp(x, y, '%s[%d]' % (path, i), in_inst)
+                self.cmp(x, y, '%s[%d]' % (path, i), in_inst, owner)
             if isinstance(a, collections.deque) and a.maxlen != b.maxlen:
-                self.diff(path, 'maxlen')
+                self.diff(path, 'maxlen', owner=owner)
             return
         if isinstance(a, set):
-            if self.identity(a, b, path, True):
+            if self.identity(a, b, path, True, owner):
                 return
             try:
                 if a != b:
-                    self.diff(path, 'set %r vs %r' % (sorted(map(repr, a))[:6], sorted(map(repr, b))[:6]))
+                    self.diff(path, 'set %r vs %r' % (sorted(map(repr, a))[:6], sorted(map(repr, b))[:6]), owner=owner)
             except Exception as e:  # noqa
-                self.diff(path, 'set comparison raised %r' % e)
+                self.diff(path, 'set comparison raised %r' % e, owner=owner)
             return
         if isinstance(a, dict):
-            if self.identity(a, b, path, True):
+            if self.identity(a, b, path, True, owner):
                 return
             ka, kb = list(a.keys()), list(b.keys())
             if len(ka) != len(kb):
-                return self.diff(path, 'dict size %d vs %d' % (len(ka), len(kb)))
+                return self.diff(path, 'dict size %d vs %d' % (len(ka), len(kb)), owner=owner)
+            try:
+                keymap = {x: x for x in kb}
+            except Exception:
+                keymap = {}
             for k in ka:
                 try:
                     present = k in b
                 except Exception:
                     present = False
                 if not present:
-                    self.diff(path, 'key %r missing in copy' % (k,))
+                    self.diff(path, 'key %r missing in copy' % (k,), owner=owner)
                     continue
-                # key types matter too: 1 == 1.0 == True
-                kk = [x for x in kb if x == k]
-                if kk and type(kk[0]) is not type(k):
-                    self.diff(path, 'key type %s vs %s' % (type(k).__name__, type(kk[0]).__name__))
-                self.cmp(a[k], b[k], '%s[%r]' % (path, k), in_inst)
+                # key types matter too: 1 == 1.0 == True (bool / np.bool_ share REPR_BOOL)
+                bk = keymap.get(k, k)
+                both_bool = isinstance(k, (bool, np.bool_)) and isinstance(bk, (bool, np.bool_))
+                if type(bk) is not type(k) and not both_bool:
+                    self.diff(path, 'key type %s vs %s' % (type(k).__name__, type(bk).__name__), owner=owner)
+                self.cmp(a[k], b[k], '%s[%r]' % (path, k), in_inst, owner)
             if isinstance(a, collections.defaultdict) and a.default_factory is not b.default_factory:
-                self.diff(path, 'default_factory')
+                self.diff(path, 'default_factory', owner=owner)
             if isinstance(a, collections.OrderedDict) and ka != kb:
-                self.diff(path, 'OrderedDict key order')
+                self.diff(path, 'OrderedDict key order', owner=owner)
             return
         if isinstance(a, np.random.Generator):
             if repr(a.bit_generator.state) != repr(b.bit_generator.state):
-                self.diff(path, 'rng state')
+                self.diff(path, 'rng state', owner=owner)
             return
         # class instance
-        if self.identity(a, b, path, True):
+        if self.identity(a, b, path, True, owner):
             return
         cls = type(a)
         mode = self.leg_mode
         if mode == 'flat' and cls.__name__ == 'LegCharge' and cls.__module__ == 'tenpy.linalg.charges':
             # documented: only ind_len, qconj, chinfo and the charge of every index survive
-            self.cmp(a.chinfo, b.chinfo, path + '.chinfo', True)
+            self.cmp(a.chinfo, b.chinfo, path + '.chinfo', True, 'LegCharge.chinfo')
             if int(a.ind_len) != int(b.ind_len) or int(a.qconj) != int(b.qconj):
-                self.diff(path, 'flat leg: ind_len/qconj')
+                self.diff(path, 'flat leg: ind_len/qconj', owner=owner)
             elif not np.array_equal(a.to_qflat(), b.to_qflat()):
-                self.diff(path, 'flat leg: qflat differs')
+                self.diff(path, 'flat leg: qflat differs', owner=owner)
             return
         da, db = getattr(a, '__dict__', None), getattr(b, '__dict__', None)
         if da is None:
             try:
                 if not (a == b):
-                    self.diff(path, 'objects differ (==) %r' % cls)
+                    self.diff(path, 'objects differ (==) %r' % cls, owner=owner)
             except Exception as e:
-                self.diff(path, 'comparison raised %r' % (e,))
+                self.diff(path, 'comparison raised %r' % (e,), owner=owner)
             return
         ign = set()
         for c in cls.__mro__:
@@ -733,10 +745,10 @@ class Compare:
         ka = set(da) - ign
         kb = set(db) - ign
         if ka != kb:
-            self.diff(path, 'attributes of %s: only in original %s, only in copy %s'
-                      % (cls.__name__, sorted(ka - kb), sorted(kb - ka)))
+            self.diff(path, 'attributes only in original %s, only in copy %s' % (sorted(ka - kb), sorted(kb - ka)),
+                      owner=cls.__name__ + '.__dict__')
         for k in sorted(ka & kb):
-            self.cmp(da[k], db[k], '%s.%s' % (path, k), True)
+            self.cmp(da[k], db[k], '%s.%s' % (path, k), True, '%s.%s' % (cls.__name__, k))
         for c in cls.__mro__:
             for name, f in OBSERVERS.get(c.__module__ + '.' + c.__qualname__, ()):
                 try:
@@ -750,6 +762,10 @@ class Compare:
                         warnings.simplefilter('ignore')
                         vb = f(b)
                 except Exception as e:
-                    self.diff('%s.%s' % (path, name), 'accessor raises %s on the copy only' % type(e).__name__)
+                    self.diff('%s.%s' % (path, name), 'accessor raises %s on the copy only' % type(e).__name__, owner='%s.%s' % (cls.__name__, name))
                     continue
-                self.cmp(va, vb, '%s.%s' % (path, name), True)
+                self._noid += 1
+                try:
+                    self.cmp(va, vb, '%s.%s' % (path, name), True, '%s.%s' % (cls.__name__, name))
+                finally:
+                    self._noid -= 1
